@@ -41,6 +41,14 @@ theorem iand_neg_pow (a k : Nat) :
   rw [clear_low]
   rfl
 
+/-- the same with the power spelled `2 ** k` -/
+theorem iand_neg_pow' (a k : Nat) :
+    Py.iand (a : Int) (-(Py.pow (2 : Int) (k : Int))) = (((a >>> k) <<< k : Nat) : Int) := by
+  have : Py.pow (2 : Int) (k : Int) = Py.shl (1 : Int) (k : Int) := by
+    unfold Py.pow Py.shl
+    rw [Int.toNat_natCast, Int.shiftLeft_eq]; simp
+  rw [this, iand_neg_pow]
+
 /-- a network of the model as the object `(version, value, prefixlen)` the translation iterates over -/
 def liftN (ver : Nat) (b : Pfx) : Nat × Int × Int := (ver, (b.val : Int), (b.plen : Int))
 
@@ -69,7 +77,8 @@ theorem span_loop (ver : Nat) (ia it : List (Nat × Int × Int)) (lo hi : Nat) :
         simp only [h, h', and_self, ↓reduceIte]
         have e1 : (((p + 1 : Nat) : Int) - 1) = (p : Int) := by omega
         have e2 : ((width ver : Nat) : Int) - (p : Int) = ((width ver - p : Nat) : Int) := by omega
-        rw [e1, e2, iand_neg_pow]
+        rw [e1, e2]
+        first | rw [iand_neg_pow] | rw [iand_neg_pow']
         exact ih f _ (by omega) (by omega)
       · have h' : ¬ ((((p + 1 : Nat) : Int) > 0) ∧ ((ipnum : Int) > (lo : Int))) := by omega
         simp only [h, h', ↓reduceIte]
